@@ -145,7 +145,7 @@ def add_nearmiss(rng, case, p=0.40):
         return
     k = int(rng.integers(10, 51))
     sign = 1 if rng.random() < 0.5 else -1
-    via = ['lam', 'f', 'grid', 'grid-axis', 'zero'][int(rng.integers(0, 5 if fo['kind'] == 'conj' else 4))]
+    via = ['lam', 'f', 'grid', 'grid-axis', 'zero', 'zero', 'zero'][int(rng.integers(0, 7 if fo['kind'] == 'conj' else 4))]
     if via == 'zero':
         # commensurate spacing, the zero 2^-k samples off the (shifted) native position: still a native FFT grid, with that shift
         k = int(rng.integers(10, 34))
